@@ -324,6 +324,28 @@ theorem C01_exact_arrival_is_safe (h : HubSt) (cutoff bal : Nat)
     subst hs; subst hb
     exact ⟨Or.inl (Nat.zero_le _), Or.inl (Nat.zero_le _)⟩
 
+/-- **A release for which at least the undelegated coins arrived meets the side condition**, with
+    or without unsolicited transfers on top (arrivals within the envelope 10^18): the split gives
+    neither token side less than was undelegated for it, so `GroupSafe` holds with no slash on either
+    side. Hence the side condition of `C01_funded_reachable` can only fail through slashing of the
+    unbonding stake. -/
+theorem C01_unslashed_arrival_is_safe (h : HubSt) (cutoff bal : Nat)
+    (hge : sideTotal (h.pairsS (h.relIds cutoff)) + sideTotal (h.pairsB (h.relIds cutoff)) ≤
+      bal - h.prevHubBalance)
+    (hle : bal - h.prevHubBalance ≤ D) : h.GroupSafe cutoff bal := by
+  unfold GroupSafe
+  generalize sideTotal (h.pairsS (h.relIds cutoff)) = sT at *
+  generalize sideTotal (h.pairsB (h.relIds cutoff)) = bT at *
+  generalize bal - h.prevHubBalance = act at *
+  by_cases hpos : 0 < sT + bT
+  · have hs := split_surplus sT bT act hpos hge hle
+    simp only [hpos, gt_iff_lt, if_true]
+    exact ⟨Or.inl hs.1, Or.inl hs.2⟩
+  · have hs : sT = 0 := by omega
+    have hb : bT = 0 := by omega
+    subst hs; subst hb
+    exact ⟨Or.inl (Nat.zero_le _), Or.inl (Nat.zero_le _)⟩
+
 /-! #### every other hub message leaves `prev_hub_balance` and the released claims alone -/
 
 private theorem prev_of_books {h st : HubSt} {e : HubEnv} (hx : h.actualState e = .ok st) :
